@@ -635,6 +635,7 @@ func (s *socket) Close(discard bool) {
 			socket_log.Debug("all packets have been sent, closing the transport")
 			s.closeTransport(discard)
 		}
+		vhook.Yield("socket.Close.buffered")
 		s.Once("drain", onDrain)
 		return
 	}
